@@ -31,6 +31,29 @@ impl StringFormatOptions {
         let mut result = Self::default();
         let mut chars = format_string.chars().peekable();
 
+        // A first grapheme cluster that is directly followed by an alignment character is the fill
+        // (the lexer delimits the format options in the same way). Checked before the per-character
+        // arms below, which would otherwise read a cluster like "x\u{304}" as a representation.
+        {
+            let mut graphemes = format_string.graphemes(true);
+            if let (Some(fill), Some(alignment @ ("<" | "^" | ">"))) =
+                (graphemes.next(), graphemes.next())
+            {
+                result.fill_character = Some(
+                    constants
+                        .add_string(fill)
+                        .map_err(|_| StringFormatError::InternalError)?,
+                );
+                result.alignment = match alignment {
+                    "<" => StringAlignment::Left,
+                    "^" => StringAlignment::Center,
+                    _ => StringAlignment::Right,
+                };
+                chars = format_string[fill.len() + 1..].chars().peekable();
+                position = MinWidth;
+            }
+        }
+
         let char_to_alignment = |c: char| match c {
             '<' => StringAlignment::Left,
             '^' => StringAlignment::Center,
